@@ -308,6 +308,10 @@ POWER_FAULTS = {
     'power_axial_gap': lambda rows: [r[:3] + ['0.45' if r[3] == '0.5' else r[3]] + r[4:] for r in rows],
     'power_beyond_core': lambda rows: [r[:3] + ['1.3' if r[3] == '1.0' else r[3]] + r[4:] for r in rows],
     'power_short_of_core': lambda rows: [r[:3] + ['0.9' if r[3] == '1.0' else r[3]] + r[4:] for r in rows],
+    # the profile must start at the bottom of the core: not above it, and not below it either
+    'power_starts_above_core_bottom': lambda rows: [r[:2] + ['0.1' if r[2] == '0.0' else r[2]] + r[3:] for r in rows],
+    'power_starts_below_core_bottom': lambda rows: [r[:2] + ['-0.2' if r[2] == '0.0' else r[2]] + r[3:] for r in rows],
+    'power_starts_just_below_core_bottom': lambda rows: [r[:2] + ['-0.004' if r[2] == '0.0' else r[2]] + r[3:] for r in rows],
     'power_wrong_asm_index': lambda rows: [[str(int(r[0]) + 5)] + r[1:] for r in rows],
     'power_nan': lambda rows: [r if i != 1 else r[:5] + ['nan'] + r[6:] for i, r in enumerate(rows)],
     'power_text': lambda rows: [r if i != 1 else r[:5] + ['abc'] + r[6:] for i, r in enumerate(rows)],
